@@ -324,7 +324,43 @@ def oracle_into_bench(dump):
         for name, members in old_blocks.items():
             if any(u in members for u in owners) and l not in c._blocks[name].gates:
                 return f'helper gate {l} of {owners} is outside block {name}'
+    # the SAME object converted again after edits that put gates outside the bench basis back in
+    # (replace_inputs rewrites an input into a constant in place; a fresh GEQ gate): every call converts
+    if len(dump['inputs']) < 2:          # a constant is converted with the help of an input: one must remain
+        return None
+    x = dump['inputs'][0]
+    try:
+        c.replace_inputs([x], [])
+        c.into_bench()
+        bad = sorted({g.gate_type.name for g in c._gates.values()} - BENCH_SET)
+        if bad:
+            return f'into_bench after replace_inputs on the same object leaves gate types outside the bench basis: {bad}'
+        helper = '~geq'
+        c.emplace_gate(helper, G().GEQ, (dump['inputs'][-1], dump['inputs'][-1]))
+        c.into_bench()
+    except Exception as e:  # noqa: BLE001
+        return f'second into_bench (after replace_inputs / emplace_gate) raises {type(e).__name__}: {e}'
+    bad = sorted({g.gate_type.name for g in c._gates.values()} - BENCH_SET)
+    if bad:
+        return f'third into_bench on the same object leaves gate types outside the bench basis: {bad}'
+    msg = wforacle.wf_violation(c)
+    if msg:
+        return 'result of the second into_bench not well formed: ' + msg
+    rest = [i for i in dump['inputs'] if i != x]
+    if list(c._inputs) != rest:
+        return 'inputs changed by the second into_bench'
+    for a in all_assignments(rest):
+        ref = evalcorr.ref_eval(dump, dict(a, **{x: True}))
+        full = impl_full(c, a)
+        for l in old:
+            if l != x and full.get(l) is not ref[l]:
+                return f'after the second into_bench gate {l} computes {full.get(l)} instead of {ref[l]} at {a}'
     return None
+
+
+def G():
+    from cirbo.core.circuit import gate
+    return gate
 
 
 # ------------------------------------------------------------------ C19
